@@ -1,10 +1,10 @@
 """hand-made mutants for C11 (batch == sequential); applied to a scratch export of /repo by tools/mutants.py
 
-All 22 are CAUGHT by the quick tier (by the committed replays AND, checked separately with the replays switched off, by the
+All 23 are CAUGHT by the quick tier (by the committed replays AND, checked separately with the replays switched off, by the
 Hypothesis search alone within 450 examples of at least one shard; marshal shards are blind for the member-exception mutants
 because of the open marshal finding).  Repo test-suite on each mutant (449 tests): GREEN for
   no_break, gate_skipped, oneway_skips_execution, every_call_twice, first_call_twice, server_drops_kwargs,
-  revert_e3112c7_marshal_kwargs_none, revert_9370374_msgpack_exthook, break_only_when_first, oneway_ignores_failure,
+  revert_e3112c7_marshal_kwargs_none, revert_9370374_msgpack_exthook, revert_e6dc367_property_getter_runs, break_only_when_first, oneway_ignores_failure,
   gate_private_only, dotted_name_resolved, wrapper_loses_attributes, long_batch_truncated
 RED (1-3 of testBatchProxy / testBatchMethod / testBatchOneway / testPyroTracebackBatch fail) for
   results_reordered, generator_yields_exception, generator_swallows_exception, wrapper_raises_generic, client_drops_kwargs,
@@ -51,6 +51,10 @@ M("c11_revert_e3112c7_marshal_kwargs_none", ["C11"],
 M("c11_revert_9370374_msgpack_exthook", ["C11"],
   ("Pyro5/serializers.py", "    def loadsCall(self, data):\n        return msgpack.unpackb(self._convertToBytes(data), raw=False, object_hook=self.object_hook, ext_hook=self.ext_hook)\n",
    "    def loadsCall(self, data):\n        return msgpack.unpackb(self._convertToBytes(data), raw=False, object_hook=self.object_hook)\n"))
+
+# e6dc367: _get_attribute runs a property getter before refusing the name (needs a batch member naming a property + state inspection)
+M("c11_revert_e6dc367_property_getter_runs", ["C11"],
+  (S, "        if inspect.isdatadescriptor(inspect.getattr_static(obj, attr, None)):\n            # properties are only reachable via the remote attribute access path (which checks their exposure)\n            raise AttributeError(\"attempt to access unexposed attribute '%s'\" % attr)\n", ""))
 
 # ---- own mutants that need something specific to manifest
 # stops only when the FIRST member fails; a failure in the middle lets the rest run (needs failure at position >= 1 with calls behind it)
